@@ -270,6 +270,41 @@ def main():
                             rp, err=err), rp)
                 _reset(qr)
 
+    # ------------------------- several objects in ONE open file (a stream)
+    import io as _io
+    for us, ul in (("int", "int"), ("1/cm", "eV")):
+        rp = dict(kind="stream", save_units=us, load_units=ul)
+        with ck.guarded("parcel-round-trip", "stream", rp, rp):
+            objs = [qr.DFunction(qr.TimeAxis(0.0, 5, 1.0),
+                                 numpy.arange(5) * (1 + 2j)),
+                    qr.Hamiltonian(data=Hd.copy()),
+                    qr.ReducedDensityMatrix(
+                        data=numpy.diag([0.5, 0.3, 0.2]).astype(complex)),
+                    qr.TimeAxis(0.0, 16, 1.0).get_FrequencyAxis()]
+            with qr.energy_units("int"):
+                want_s = [numpy.array(o.data) for o in objs]
+            fd = _io.BytesIO()
+            with qr.energy_units(us):
+                for o in objs:
+                    o.save(fd)
+            fd.seek(0)
+            got_s = []
+            with qr.energy_units(ul):
+                for o in objs:
+                    got_s.append(type(o)().load(fd)
+                                 if not isinstance(o, qr.DFunction)
+                                 else qr.DFunction().load(fd))
+            with qr.energy_units("int"):
+                oks = [type(g) is type(o) and numpy.array(g.data).shape ==
+                       w.shape and float(numpy.abs(numpy.array(g.data) - w
+                                                   ).max()) <= 1e-12
+                       for g, o, w in zip(got_s, objs, want_s)]
+            ck.case("parcel-round-trip", ("stream", us, ul),
+                    sample=dict(rp, ok=oks))
+            if not all(oks):
+                ck.violation("parcel-round-trip", "stream:position-%d" %
+                             oks.index(False), dict(rp, ok=oks), rp)
+
     # ------------------------------------- SaveLoad behaviours -> real code
     replay_behaviours(ck, qr, numpy, tmp)
     savedir_behaviours(ck, qr, numpy, tmp)
